@@ -92,6 +92,23 @@ def cases(tier, seed):
   for i in range(nloop):
     c, s, j = combos[(i + 3) % 8]
     out.append({"id": f"loop{seed}_{i}", "kind": "loop", "seed": seed * 100000 + 70000 + i, "n": (2, 3, 4, 6)[(i // 8) % 4], "cone": c, "solver": s, "jac": j, "settle": (0, 30)[i % 2], "exact_geoms": 1})
+  # serial arms with dry friction and strongly violated limits, cold start: one Newton step can throw a friction row
+  # from one linear zone straight into the other (never QUADRATIC) -- the stable-state fast path must notice
+  for i in range(24 if tier == "quick" else 400):
+    # mostly Newton + pyramidal: the only configuration with incremental Hessian updates and the stable-state fast path
+    out.append(
+      {
+        "id": f"arm{seed}_{i}",
+        "kind": "arm",
+        "seed": seed * 100000 + 80000 + i,
+        "n": 2 + i % 3,
+        "cone": "elliptic" if i % 6 == 5 else "pyramidal",
+        "solver": "CG" if i % 8 == 7 else "Newton",
+        "jac": ("dense", "sparse")[(i // 3) % 2],
+        "settle": 0,
+        "exact_geoms": 1,
+      }
+    )
   for k, p in enumerate(REPO_MODELS):
     for r in range(2 if tier == "quick" else 12):
       c, s, j = combos[(k * 3 + r) % 8]
@@ -110,6 +127,21 @@ def build(case, rng):
   if case["kind"] == "loop":
     xml = S.loop_xml(rng, case["n"], case["cone"], case["solver"], case["jac"])
     return xml, gen.compile_xml(xml), ["scene:loop"]
+  if case["kind"] == "arm":
+    n = case["n"]
+    grav = "0 0 0" if rng.random() < 0.5 else "0 0 -9.81"
+    body, close = "", ""
+    for k in range(n):
+      fl = f' frictionloss="{rng.uniform(0.5, 4):.3g}"' if (k == 0 or rng.random() < 0.5) else ""
+      lim = f' limited="true" range="{-rng.uniform(0.3, 0.7):.3g} {rng.uniform(0.3, 0.7):.3g}"' if (k == n - 1 or rng.random() < 0.5) else ""
+      axis = ("0 1 0", "0 0 1", "1 0 0")[int(rng.integers(3))] if k else "0 1 0"
+      body += f'<body pos="{0.4 if k else 0} 0 0"><joint name="a{k}" type="hinge" axis="{axis}"{fl}{lim}/><geom type="capsule" fromto="0 0 0 0.4 0 0" size="0.03" mass="{rng.uniform(0.5, 2):.3g}" contype="0" conaffinity="0"/>'
+      close += "</body>"
+    xml = (
+      f'<mujoco><option gravity="{grav}" solver="{case["solver"]}" cone="{case["cone"]}" jacobian="{case["jac"]}" tolerance="1e-10" iterations="100">'
+      f'<flag warmstart="disable"/></option><worldbody>{body}{close}</worldbody></mujoco>'
+    )
+    return xml, gen.compile_xml(xml), ["scene:arm-frictionloss-limits-coldstart"]
   path = os.path.join(core.TEST_DATA, case["path"])
   mjm = mujoco.MjModel.from_xml_path(path)
   mjm.opt.cone = {"pyramidal": mujoco.mjtCone.mjCONE_PYRAMIDAL, "elliptic": mujoco.mjtCone.mjCONE_ELLIPTIC}[case["cone"]]
@@ -324,10 +356,19 @@ def run_case(case):
     return rec.result()
   solver = "Newton" if mjm.opt.solver == mujoco.mjtSolver.mjSOL_NEWTON else "CG"
   cone = "elliptic" if mjm.opt.cone == mujoco.mjtCone.mjCONE_ELLIPTIC else "pyramidal"
-  nworld = 3
+  nworld = 12 if case["kind"] == "arm" else 3
   states = []
   for w in range(nworld):
     st = gen.sample_state(mjm, rng, vel=float(rng.choice([0.0, 0.3, 1.5])), quat_scale=False)
+    if case["kind"] == "arm":
+      # limited joints well beyond their range, velocities on the friction dofs
+      q = np.array(st["qpos"], dtype=np.float64)
+      for jn in range(mjm.njnt):
+        if mjm.jnt_limited[jn]:
+          lo, hi = mjm.jnt_range[jn]
+          q[mjm.jnt_qposadr[jn]] = (hi + rng.uniform(0.1, 0.8)) if rng.random() < 0.5 else (lo - rng.uniform(0.1, 0.8))
+      st["qpos"] = q.astype(np.float32)
+      st["qvel"] = (rng.normal(size=mjm.nv) * rng.choice([0.5, 1.5, 3.0])).astype(np.float32)
     if case["kind"] in ("pile", "repo") and w < 2:
       st["qpos"] = (np.array(mjm.qpos0) + (rng.normal(size=mjm.nq) * 0.01 if w else 0)).astype(np.float32)
       st["qvel"] = (st["qvel"] * 0.1).astype(np.float32)
@@ -354,7 +395,7 @@ def run_case(case):
   states[0]["qacc_warmstart"] = np.zeros(mjm.nv, np.float32)
   states[1]["qacc_warmstart"] = (rng.normal(size=mjm.nv) * 10.0 * max(1.0, float(np.abs(ref_d[1].qacc).max()))).astype(np.float32)
   states[2]["qacc_warmstart"] = np.array(ref_d[2].qacc, dtype=np.float32) if np.all(np.isfinite(ref_d[2].qacc)) else np.zeros(mjm.nv, np.float32)
-  d = mw.make_data(mjm, m, states, njmax=njmax, nconmax=max(48, 2 * ncon_need + 8))
+  d = mw.make_data(mjm, m, states, njmax=njmax, nconmax=max(48, 2 * ncon_need + 8), njmax_nnz=njmax * mjm.nv)
   nontriv = False
   kernels = set()
   refs, first_ii, first_aref, first_i_ok = {}, {}, {}, {}
@@ -413,7 +454,7 @@ def run_case(case):
       E.admissibility(rec, mjm, m, d, w, rows=rows, contact_force=False, sig_prefix="C24:", start=start)
       rec.cover(f"judged:{solver}:{cone}:{'sparse' if m.is_sparse else 'dense'}", 1)
       rec.cover(f"judged_pass:{tag}", 1)
-      rec.cover("warmstart:" + ("cold", "hostile", "near_optimal")[w] + ":" + tag, 1)
+      rec.cover("warmstart:" + ("cold", "hostile", "near_optimal")[min(w, 2) if w < 3 else 0] + ":" + tag, 1)
       rec.cover("niter_hist:" + solver, str(min(int(niter[w]), 20) if niter[w] < 20 else "20+"))
       for tt in range(8):
         k = int((P["type"] == tt).sum())
